@@ -27,7 +27,8 @@ ALL = [f"C{i:02d}" for i in range(1, 21)]
 def main() -> int:
     args = sys.argv[1:]
     tier = args[args.index("--tier") + 1] if "--tier" in args else "quick"
-    names = [a for a in args if not a.startswith("--") and a != tier]
+    seeds = args[args.index("--seeds") + 1].split(",") if "--seeds" in args else [os.environ.get("VERIF_SEED", "1")]
+    names = [a for a in args if not a.startswith("--") and a != tier and a != ",".join(seeds)]
     rows = []
     for d in sorted((ROOT / "seeded").iterdir()):
         if not (d / "patch.diff").exists() or (names and d.name not in names):
@@ -61,18 +62,25 @@ def main() -> int:
             checks = ALL if "--all-checks" in args else (meta.get("checks") or [meta.get("property")])
             info["results"] = {}
             for pid in checks:
+              hits = []
+              for sd in seeds:
                 t0 = time.monotonic()
                 env = {**os.environ, "REPID_SRC": str(dst), "VERIF_CASE_LIMIT_S": "30", "VERIF_EVIDENCE_DIR": str(ROOT / ".work" / "seed-evidence"),
-                       "VERIF_REPLAY_DIR": str(ROOT / ".work" / "seed-replays")}
+                       "VERIF_REPLAY_DIR": str(ROOT / ".work" / "seed-replays"), "VERIF_SEED": sd}
                 c = subprocess.run(["/venv/bin/python", "-m", "harness.run", pid, "--tier", tier], cwd=ROOT, env=env,
                                    capture_output=True, text=True)
                 caught = c.returncode == 1 and "VIOLATION" in c.stdout
+                hits.append(caught)
                 first = next((ln.strip() for ln in c.stdout.splitlines() if ln.startswith("  [")), "")
-                info["results"][pid] = {"caught": caught, "rc": c.returncode, "seconds": round(time.monotonic() - t0, 1), "first": first[:200]}
+                info["results"][pid] = {"caught": caught, "rc": c.returncode, "seconds": round(time.monotonic() - t0, 1), "first": first[:200],
+                                        "seeds": dict(zip(seeds, hits))}
                 print(f"{'caught' if caught else ('ERROR' if c.returncode == 2 else 'MISSED'):7s} {d.name:34s} {pid} "
-                      f"{time.monotonic() - t0:6.1f}s {first[:140]}")
+                      f"{time.monotonic() - t0:6.1f}s {'seed ' + sd + ' ' if len(seeds) > 1 else ''}{first[:140]}", flush=True)
                 if c.returncode == 2:
                     print(c.stderr[-500:])
+              if len(seeds) > 1:
+                  info["results"][pid]["caught"] = all(hits)
+                  print(f"   {d.name} {pid}: caught at {sum(hits)} of {len(hits)} seeds", flush=True)
             rows.append(info)
         finally:
             shutil.rmtree(dst, ignore_errors=True)
